@@ -51,11 +51,40 @@ Truthy(v) ==
 \* Printed form where the property fixes one (null -> "", int -> decimal digits,
 \* string -> itself).  Booleans, lists, maps are never printed directly by the
 \* generators (they are observed through `if` or through the harness dump filter).
-Printable(v) == v.t \in {"null", "int", "str"}
+\* [t |-> "gostr", kind, s]: a Go value that is not a string but has a text form: kind in
+\* bytes ([]byte) | named (type T string) | stringer (String() method) | err (error)
+VGo(kind, s) == [t |-> "gostr", kind |-> kind, s |-> s]
+\* exact decimals m * 10^-e: canonical text has no trailing zeros, no "-0"
+RECURSIVE Pow10(_)
+Pow10(k) == IF k = 0 THEN 1 ELSE 10 * Pow10(k - 1)
+RECURSIVE StripZeros(_, _)
+StripZeros(m, e) == IF e > 0 /\ m % 10 = 0 THEN StripZeros(m \div 10, e - 1) ELSE [m |-> m, e |-> e]
+RECURSIVE PadDigits(_, _)
+PadDigits(ds, n) == IF Len(ds) >= n THEN ds ELSE PadDigits(<<48>> \o ds, n)
+DecText(m0, e0) ==
+    LET c == StripZeros(m0, e0)
+        a == IF c.m < 0 THEN -c.m ELSE c.m
+        ip == a \div Pow10(c.e)
+        fp == a % Pow10(c.e)
+    IN (IF c.m < 0 THEN <<45>> ELSE <<>>) \o NatDigits(ip)
+       \o (IF c.e = 0 THEN <<>> ELSE <<46>> \o PadDigits(NatDigits(fp), c.e))
+\* rounding to p decimal places (p may be negative); methods common (ties away from zero), floor, ceil
+RoundDec(m, e, p, method) ==
+    IF p >= e THEN [m |-> m, e |-> e]
+    ELSE LET scale == Pow10(e - p)
+             q == m \div scale          \* floor
+             r == m % scale             \* 0 <= r < scale
+             q2 == CASE method = "floor" -> q
+                     [] method = "ceil" -> IF r > 0 THEN q + 1 ELSE q
+                     [] OTHER -> IF 2 * r > scale THEN q + 1 ELSE IF 2 * r < scale THEN q ELSE (IF m >= 0 THEN q + 1 ELSE q)
+         IN IF p >= 0 THEN [m |-> q2, e |-> p] ELSE [m |-> q2 * Pow10(-p), e |-> 0]
+Printable(v) == v.t \in {"null", "int", "str", "gostr", "dec"}
 TextOf(v) ==
     CASE v.t = "null" -> <<>>
       [] v.t = "int"  -> IntText(v.i)
       [] v.t = "str"  -> v.s
+      [] v.t = "gostr" -> v.s
+      [] v.t = "dec" -> DecText(v.m, v.e)
       [] OTHER        -> <<63, 63>>          \* "??" never expected: generators exclude it
 
 \* map lookup by key value (keys are str or int values); Null when absent
